@@ -585,6 +585,27 @@ def run_case(case):
     digests = []
     nontrivial = 0
     records = 0
+    if case.get('block') == 'plain':
+        # history: a call with a user-supplied `loader` comes first; the plain loads that follow must still use the format's
+        # own reader (nothing may be remembered from the custom call)
+        import csep
+        marker = [('custom', 86400000, 1.5, 2.5, 3.5, 4.5)]
+        path = os.path.join(_workdir(), 'c19_custom%s' % rc.EXT[fmt])
+        with open(path, 'w', newline='') as fh:
+            fh.write(rc.write(fmt, [plain_record(fmt)], file_options(fmt)[0])[0])
+        try:
+            with open(os.devnull, 'w') as dn, contextlib.redirect_stdout(dn):
+                cat = csep.load_catalog(path, type=fmt, loader=lambda fname: list(marker))
+            counters['custom_loader_calls'] = 1
+            if int(cat.event_count) != 1 or float(cat.get_magnitudes()[0]) != 4.5:
+                failures.append(Fail('csep.load_catalog|custom-loader-not-used|%s' % fmt, 'loader= argument ignored', dict(kind='files', fmt=fmt, block='plain', files=case['files'])))
+        except Exception as e:
+            failures.append(Fail('csep.load_catalog|%s|custom-loader' % type(e).__name__, '%s: %s' % (type(e).__name__, e), dict(kind='files', fmt=fmt, block='plain', files=case['files'])))
+        finally:
+            try:
+                os.remove(path)
+            except OSError:
+                pass
     for spec in case['files']:
         judge_file(fmt, spec, failures, h, counters)
         text = rc.write(fmt, spec['records'], spec['opts'])[0]
